@@ -575,6 +575,35 @@ theorem C10_index_equals_eager_partial (ops : FloatOps F) (lex : LexCfg) (cfg : 
   · simp [List.map_map, Function.comp_def, recEntry]
   · rw [hcr]; simp
 
+/-- the ids the eager model creates from a data section (dictionary `exDict` of the C01 owner: one entity `A(i : INTEGER, l : LIST OF
+    INTEGER)`), with the count `ReadData1` reports -/
+def eagerIds (data : String) : Option (List Int × Nat) :=
+  match readDataSection dblOps Generated.rwLexCfg Generated.rwCfg exDict false false (q data) with
+  | .ok r => some (r.mgr.insts.map (·.id), r.created)
+  | .error _ => none
+
+/-- the ids the lazy scanner model indexes in the same data section, and whether it accepts the section -/
+def lazyIds (data : String) : Option (List Nat × Bool) :=
+  match scan data.toList with
+  | .ok (es, b) => some (es.map (·.id), b)
+  | _ => none
+
+/-- executed on both models, the largest id of the covered class (`INT_MAX`): the same three instances -/
+theorem C10_index_equals_eager_witness :
+    eagerIds "#1=A(5,(1));#2147483647=A(5,(1));#3=A(5,(1));ENDSEC;END-ISO-10303-21;" = some ([1, 2147483647, 3], 3) ∧
+    lazyIds "#1=A(5,(1));#2147483647=A(5,(1));#3=A(5,(1));ENDSEC;END-ISO-10303-21;" = some ([1, 2147483647, 3], true) := by
+  constructor <;> decide
+
+/-- `_witness` for the hypothesis `id ≤ INT_MAX` of `C10_index_equals_eager_partial` (it comes from the eager side's `Rec.Lex`): an
+    instance name above `INT_MAX` — conforming, Part 21 does not bound instance names — and the two readers see different files.
+    The eager reader stops creating instances at it (one instance, as p21read does: "instance #2147483647 '=' expected", then nothing
+    more of the section), the lazy index lists all three (its ids are 64 bit).  Replayed on the code (`layout:id-above-int-max`); there
+    `loadInstance` of the indexed instance then yields an instance named `#-1294967296` and references to it are dropped -/
+theorem C10_id_above_int_max_witness :
+    eagerIds "#1=A(5,(1));#3000000000=A(5,(1));#3=A(5,(1));ENDSEC;END-ISO-10303-21;" = some ([1], 1) ∧
+    lazyIds "#1=A(5,(1));#3000000000=A(5,(1));#3=A(5,(1));ENDSEC;END-ISO-10303-21;" = some ([1, 3000000000, 3], true) := by
+  constructor <;> decide
+
 end Eager
 
 end StepModel.Lazy
